@@ -176,7 +176,7 @@ fn judge_inner(case: &Case, known: &Known, det: &mut Option<Details>) -> Outcome
         Err(exec::SqlErr::Setup(m)) => return Outcome::skip(&format!("setup: {m}")),
         Err(e) => {
             let m = e.msg().to_string();
-            if m.contains("ON clause references tables to its right") || m.contains("Expression tree is too large") || m.contains("too many terms") || m.contains("parser stack overflow") {
+            if m.contains("ON clause references tables to its right") || m.contains("Expression tree is too large") || m.contains("too many terms") || m.contains("parser stack overflow") || m.contains("more than 100000 rows") {
                 return Outcome::skip("engine_limit").class("engine_limit");
             }
             let binder = m.contains("no such column") || m.contains("no such table") || m.contains("ambiguous column") || m.contains("same number of result columns");
